@@ -159,6 +159,7 @@ class Program:
                 for m in re.finditer(r'\benum\s+(\w+)[^{;(]*\{', txt_nc):
                     body, _ = _balanced(txt_nc, m.end() - 1)
                     names, discr, vfields = [], [], {}
+                    is_flags_macro = bool(re.match(r'\benum\s+\w+\s*:', m.group(0)))   # flagset::flags! syntax: values are flag bits, not discriminants
                     for item in _split_items(body):
                         if _cfg_disabled(item): continue
                         item = re.sub(r'#\[[^\]]*\]', '', item).strip()
@@ -184,7 +185,10 @@ class Program:
                     if name not in self.enums:
                         self.enums[name] = names
                         for vn, fl in vfields.items(): self.enum_fields[(name, vn)] = fl
-                        if any(d is not None for d in discr):
+                        if is_flags_macro:
+                            self.flag_bits = getattr(self, 'flag_bits', {})
+                            self.flag_bits[name] = discr
+                        elif any(d is not None for d in discr):
                             out = []; cur = -1
                             for d in discr:
                                 cur = d if d is not None else cur + 1
